@@ -191,7 +191,9 @@ func TestRoundTrip(t *testing.T) {
 			if _, ok := files[dc.Part]; !ok {
 				rt.Fatalf("decoy %s not written", dc.Part)
 			}
-			if referenced[dc.Part] || strings.Contains(all, path.Base(dc.Part)+`"`) {
+			// (a decoy may share its base name with a slide in another directory on purpose: only resolution counts)
+			_ = all
+			if referenced[dc.Part] {
 				rt.Fatalf("decoy %s is referenced", dc.Part)
 			}
 		}
